@@ -226,6 +226,19 @@ def mon_ctx_outcome(sc):
                 if not (by_ctx or by_stop or by_peer):
                     return "Call %d returned context %s but its context did not end that way, the client was not stopped " \
                            "and the peer sent no such error" % (n, want)
+            if r[0] == "batch" and r[1] != "-" and o["ids"]:
+                # the same for the entries of a Batch (they keep the wire form of the error)
+                for e in r[1].split(";"):
+                    q = e.split(",")
+                    if len(q) < 3 or q[1] != "E" or q[2] not in ("-32097", "-32096"):
+                        continue
+                    want = "cancel" if q[2] == "-32097" else "deadline"
+                    by_ctx = o["ctxend"] is not None and o["ctxend"][0] < ln and o["ctxend"][1] == want
+                    by_stop = want == "cancel" and any(c < ln for c in closes)
+                    by_peer = any(p.startswith("E,%s," % q[2]) for (l2, p) in fed.get(q[0], []) if l2 < ln)
+                    if not (by_ctx or by_stop or by_peer):
+                        return "Batch %d: the entry for id %s completed with context %s but the context of the Batch did not " \
+                               "end that way, the client was not stopped and the peer sent no such error" % (n, q[0], want)
         if o["kind"] != "close" and stops and o["line"] > stops[0]:
             if o.get("sent_ok") is not None:
                 return "operation %d was issued after the client stopped and still transmitted a request" % n
